@@ -53,16 +53,27 @@ def _cls(path, name):
     return getattr(importlib.import_module(path), name)
 
 
+def user_objects(ad, cfg):
+    """fresh copies of the mutable constructor arguments (what a user would pass), remembered for the side-effect snapshot"""
+    out = {}
+    for k, v in cfg.items():
+        if isinstance(v, (set, dict, list)) and not k.startswith("_"):
+            out[k] = type(v)(v)
+    ad.param_objects = dict(getattr(ad, "param_objects", {}) or {}, **out)
+    return dict(cfg, **out)
+
+
 DOCS = [["a", "b", "a", "c"], ["b", "b", "c"], ["c", "a"], ["a"], ["d", "a", "b", "a", "b"], []]
 
 
 class Ngram(Adapter):
     name = "NgramVectorizer"
     configs = [dict(), dict(ngram_size=2), dict(ngram_size=2, ngram_behaviour="subgrams"), dict(min_occurrences=2),
-               dict(ngram_size=2, mask_string="[M]", excluded_tokens={"b"}), dict(ngram_size=3, max_unique_tokens=4)]
+               dict(ngram_size=2, mask_string="[M]", excluded_tokens={"b"}), dict(ngram_size=3, max_unique_tokens=4),
+               dict(excluded_tokens={"d"}, excluded_token_regex="c"), dict(ngram_size=2, excluded_tokens={"c"}, excluded_token_regex="d")]
 
     def make(self):
-        return _cls("vectorizers.ngram_vectorizer", "NgramVectorizer")(**self.cfg)
+        return _cls("vectorizers.ngram_vectorizer", "NgramVectorizer")(**user_objects(self, self.cfg))
 
     def make_pool(self):
         return DOCS[:5]
@@ -70,10 +81,11 @@ class Ngram(Adapter):
 
 class Skipgram(Adapter):
     name = "SkipgramVectorizer"
-    configs = [dict(window_radius=2), dict(window_radius=1, kernel_function="harmonic"), dict(window_radius=3, min_occurrences=2)]
+    configs = [dict(window_radius=2), dict(window_radius=1, kernel_function="harmonic"), dict(window_radius=3, min_occurrences=2),
+               dict(window_radius=2, ignored_tokens={"d"}, excluded_token_regex="c")]
 
     def make(self):
-        return _cls("vectorizers.skip_gram_vectorizer", "SkipgramVectorizer")(**self.cfg)
+        return _cls("vectorizers.skip_gram_vectorizer", "SkipgramVectorizer")(**user_objects(self, self.cfg))
 
     def make_pool(self):
         return DOCS[:5]
@@ -298,13 +310,12 @@ class TokenCooc(Whole):
                     window_functions=["fixed", "fixed"], token_dictionary={"a": 0, "b": 1, "c": 2}),
                dict(window_radii=2, token_dictionary={"a": 0, "b": 1, "c": 2}, mask_string="[M]", nullify_mask=True),
                dict(window_radii=2, n_iter=2, epsilon=0.05, n_threads=2, token_dictionary={"a": 0, "b": 1, "c": 2}),
-               dict(window_radii=2, window_functions="variable", token_dictionary={"a": 0, "b": 1, "c": 2})]
+               dict(window_radii=2, window_functions="variable", token_dictionary={"a": 0, "b": 1, "c": 2}),
+               dict(window_radii=2, excluded_tokens={"c"}, excluded_token_regex="b"),
+               dict(window_radii=1, excluded_tokens={"c"}, excluded_token_regex="b", mask_string="[M]")]
 
     def make(self):
-        cfg = dict(self.cfg)
-        if "token_dictionary" in cfg:
-            cfg["token_dictionary"] = dict(cfg["token_dictionary"])
-        self.param_objects = {"token_dictionary": cfg.get("token_dictionary")}
+        cfg = user_objects(self, self.cfg)
         return _cls("vectorizers.token_cooccurrence_vectorizer", "TokenCooccurrenceVectorizer")(**cfg)
 
     def make_pool(self):
@@ -369,10 +380,11 @@ class TreeCooc(Whole):
     name = "LabelledTreeCooccurrenceVectorizer"
     rtol, atol = 1e-6, 1e-8
     configs = [dict(window_radius=2), dict(window_radius=2, window_orientation="symmetric", kernel_function="harmonic"),
-               dict(window_radius=1, mask_string="[M]", nullify_mask=True, ignored_tokens={"b"})]
+               dict(window_radius=1, mask_string="[M]", nullify_mask=True, ignored_tokens={"b"}),
+               dict(window_radius=2, ignored_tokens={"c"}, excluded_token_regex="b")]
 
     def make(self):
-        return _cls("vectorizers.tree_token_cooccurrence", "LabelledTreeCooccurrenceVectorizer")(**self.cfg)
+        return _cls("vectorizers.tree_token_cooccurrence", "LabelledTreeCooccurrenceVectorizer")(**user_objects(self, self.cfg))
 
     def make_pool(self):
         def tree(parents, labels):
